@@ -39,6 +39,28 @@ Theorem C06_refines_set : forall c start adm cs,
 Proof. exact refines_set. Qed.
 Print Assumptions C06_refines_set.
 
+(* "granted and not since revoked": a freshly constructed contract has no member, and in every reachable
+   state the set is the fold of the set operations of the SUCCESSFUL grant / revoke / renounce_role calls
+   of the history (outcomes = the calls with their ok / fail outcome) *)
+Theorem C06_init_empty : forall start adm a r, abs (init start adm) a r = false.
+Proof. exact init_empty. Qed.
+Print Assumptions C06_init_empty.
+
+Theorem C06_set_is_history : forall c start adm cs a r,
+  abs (run c (init start adm) cs) a r =
+  fold_left (fun (acc : addr -> role -> bool) (co : call * bool) => fun a r' =>
+      if snd co then
+        match fst co with
+        | Grant account r _ _ => acc a r' || (N.eqb a account && N.eqb r' r)
+        | Revoke account r _ _ => acc a r' && negb (N.eqb a account && N.eqb r' r)
+        | RenounceRole r caller _ => acc a r' && negb (N.eqb a caller && N.eqb r' r)
+        | _ => acc a r'
+        end
+      else acc a r')
+    (outcomes c (init start adm) cs) (fun _ _ => false) a r.
+Proof. exact set_is_history. Qed.
+Print Assumptions C06_set_is_history.
+
 (* never more than MAX_ROLES existing roles *)
 Theorem C06_max_roles_bound : forall c start adm cs,
   (N.of_nat (length (a_existing (run c (init start adm) cs))) <= max_roles c)%N.
@@ -70,6 +92,37 @@ Theorem C06_role_admin_frame : forall c s cl r,
 Proof. exact role_admin_frame. Qed.
 Print Assumptions C06_role_admin_frame.
 
+(* ---- WHO is the admin ---- *)
+(* The (ledger, admin, pending admin) part of ANY run of the contract is a run of the C07 handshake machine
+   (kind AC) on the projected calls: transfer_admin_role / accept / renounce_admin / the #[only_admin] entry
+   point / Advance map to themselves, every other call to a no-op.  All C07 theorems therefore speak about the
+   admin of the access-control contract, interleaved with arbitrary role traffic. *)
+Theorem C06_admin_is_handshake_run : forall c s cs,
+  now (RoleTransfer.run AC (host c) (hand_state s) (map hand_call cs)) = a_now (run c s cs) /\
+  rts (RoleTransfer.run AC (host c) (hand_state s) (map hand_call cs)) = a_rt (run c s cs).
+Proof. exact admin_is_handshake_run. Qed.
+Print Assumptions C06_admin_is_handshake_run.
+
+(* the admin changes only by a successful accept_admin_transfer - to the live pending admin, who authorised the
+   call, while an admin is set - or by a successful renounce_admin authorised by the admin with nothing pending *)
+Theorem C06_admin_frame : forall c s cl,
+  holder (a_rt (fst (step c s cl))) <> holder (a_rt s) ->
+  snd (step c s cl) = true /\
+  ((exists au new, cl = AcceptAdmin au /\ holder (a_rt s) <> None /\ tget (a_now s) (pending (a_rt s)) = Some new /\
+                   has_auth au new = true /\ holder (a_rt (fst (step c s cl))) = Some new) \/
+   (exists au, cl = RenounceAdmin au /\ signed_by (holder (a_rt s)) au = true /\
+               tget (a_now s) (pending (a_rt s)) = None /\ holder (a_rt (fst (step c s cl))) = None)).
+Proof. exact admin_frame. Qed.
+Print Assumptions C06_admin_frame.
+
+Theorem C06_accept_admin_semantics : forall c s au,
+  snd (step c s (AcceptAdmin au)) = true ->
+  holder (a_rt s) <> None /\
+  exists new, tget (a_now s) (pending (a_rt s)) = Some new /\ has_auth au new = true /\
+              holder (a_rt (fst (step c s (AcceptAdmin au)))) = Some new.
+Proof. exact accept_admin_semantics. Qed.
+Print Assumptions C06_accept_admin_semantics.
+
 (* ---- a restricted function executes only with its principal's authorisation (any state) ---- *)
 Theorem C06_guard_semantics : forall c s,
   (forall au, snd (step c s (AdminRestricted au)) = signed_by (holder (a_rt s)) au) /\
@@ -88,7 +141,9 @@ Theorem C06_guard_semantics : forall c s,
 Proof. exact guard_semantics. Qed.
 Print Assumptions C06_guard_semantics.
 
-(* #[only_owner]: the guarded entry point of the ownable example runs exactly with the owner's authorisation *)
+(* #[only_owner]: the guarded entry point of the ownable example runs exactly with the owner's authorisation.
+   (This and C06_allowlist_guard restate the model's definition in closed form; their content rests on the
+   correspondence run - the real contracts are compared with it on every call - and on host rollback.) *)
 Theorem C06_only_owner_semantics : forall k c s au,
   RoleTransfer.step k c s (Guarded au) =
     if Proofs.RoleTransfer.signed_by (holder (rts s)) au
@@ -160,5 +215,12 @@ Example C06_nonvacuous :
   let s := run ex_cfg (init 100 (Some 0%N)) ex_calls in
   members_list s 0%N = [1; 3; 0]%N /\ members_list s 2%N = [1; 2]%N /\ a_existing s = [2; 0]%N /\
   holder (a_rt s) = None /\ a_has s 1%N 0%N = Some 0%N /\ a_has s 3%N 0%N = Some 1%N /\ a_has s 2%N 0%N = None /\
-  wf_aheader ex_h = true /\ forallb (wf_call ex_u) ex_calls = true.
+  wf_aheader ex_h = true /\ forallb (wf_call ex_u) ex_calls = true /\
+  wf_alheader ex_alh = true /\ C07.wf_header C07.hd0 = true.
 Proof. vm_compute. repeat split; reflexivity. Qed.
+(* the hypotheses of C06_owner_renounced_is_final are met: an owner renounces, then nothing restricted succeeds *)
+Example C06_owner_renounce_nonvacuous :
+  map (fun e => (ev_holder e, is_ok (ev_out e), ev_after e))
+      (history Own C07.ex_cfg (RoleTransfer.init 100 (Some 0%N)) [Renounce [0%N]; Guarded [0%N]; Accept [1%N]]) =
+  [(Some 0%N, true, None); (None, false, None); (None, false, None)].
+Proof. vm_compute. reflexivity. Qed.
